@@ -20,11 +20,86 @@ def gen(rnd, tier):
     return cases
 
 
+PROPS = ["C06", "C06_thms"]
+WIDE = ["a", "b", "c", "x", "y", "0", "9", " ", "\u4e16", "\u754c", "\u65e5", "\u672c", "\uff57"]
+
+
+def wide_family(res, tier, rnd):
+    """views with double-width runes and SGR styling (outside the Coq theorems' alphabet): the real renderer's bytes
+    through lib/widevt.py, a Python terminal with cell widths; after every render the window shows the latest view"""
+    import json
+    import os
+    from .. import common as C
+    from .. import widevt as W
+    okb, out = C.build_harness()
+    if not okb:
+        raise C.Fail("harness build failed:\n" + out[-2000:])
+
+    def line(w):
+        n = rnd.choice([0, 1, w // 2, w - 1, w, w + 1, w + 3])
+        s = ""
+        while W.width(s) < n:
+            s += rnd.choice(WIDE)
+        if rnd.random() < 0.3 and s:
+            s = "\x1b[1;31m" + s[:len(s) // 2] + "\x1b[0m" + s[len(s) // 2:]
+        return s
+    cases = []
+    for i in range(250 if tier == "quick" else 6000):
+        w, h = rnd.choice([(6, 3), (10, 4), (12, 5), (5, 2), (20, 6), (2, 2)])
+        alt = rnd.random() < 0.5
+        ops = [{"op": "resize", "w": w, "h": h}] + ([{"op": "enteralt"}] if alt else [])
+        views = []
+        v = [line(w) for _ in range(rnd.randint(1, h))]
+        for k in range(rnd.choice([2, 3, 5])):
+            v = [(line(w) if rnd.random() < 0.5 else l) for l in v]
+            if rnd.random() < 0.3 and len(v) < h:
+                v.append(line(w))
+            if rnd.random() < 0.3 and len(v) > 1:
+                v.pop()
+            s = "\n".join(v)
+            ops += [{"op": "write", "s": list(s.encode())}, {"op": "flush"}]
+            views.append(s)
+        cases.append({"id": i, "ops": ops, "w": w, "h": h, "alt": alt, "views": views})
+    ip, op_ = os.path.join(C.CASES, "C06_wide.in.jsonl"), os.path.join(C.CASES, "C06_wide.out.jsonl")
+    with open(ip, "w") as f:
+        for c in cases:
+            f.write(json.dumps({"id": c["id"], "ops": c["ops"]}) + "\n")
+    rc, out, _ = C.run_harness(["renderer", "-out", op_, ip], timeout=600)
+    if rc != 0:
+        raise C.Fail("renderer harness failed: " + out[-1000:])
+    outs = C.read_jsonl(op_)
+    bad, untok = [], 0
+    for c, o in zip(cases, outs):
+        if o.get("panic"):
+            bad.append((c, "the renderer panicked: %s" % o["panic"]))
+            continue
+        vt = W.VT(c["w"], c["h"])
+        vi = 0
+        for op, b in zip(c["ops"], o["outs"]):
+            if not vt.feed(bytes(b)):
+                untok += 1
+                break
+            if op["op"] == "flush":
+                exp = W.expected_rows(c["views"][vi], c["w"], c["h"])
+                vi += 1
+                want = exp + [""] * (c["h"] - len(exp))
+                if vt.window() != want:
+                    bad.append((c, "after render %d the window shows %r, the view is %r (%dx%d, %s)" % (vi, vt.window(), want, c["w"], c["h"], "alt screen" if c["alt"] else "inline")))
+                    break
+    res.oblige("exploration beyond the theorems' alphabet (double-width runes, SGR styling; Python terminal with cell widths, not Coq): after every render the window shows the latest view, %d histories" % len(cases),
+               not bad and not untok, [b[1] for b in bad[:2]] or untok)
+    for c, what in bad[:1]:
+        res.violation("C06:wide-view", what, {"wide_case": {"ops": c["ops"], "w": c["w"], "h": c["h"], "alt": c["alt"], "views": c["views"]}})
+    res.coverage["wide_family"] = {"histories": len(cases), "with_wide_runes": sum(1 for c in cases if any(W.cw(ch) == 2 for v in c["views"] for ch in W.strip_sgr(v))),
+                                   "with_sgr": sum(1 for c in cases if any("\x1b[" in v for v in c["views"]))}
+
+
 def run(res, tier, seed):
     rnd = random.Random(seed * 1009 + 6)
-    return R.run_family(res, "C06", "C06", gen(rnd, tier),
+    wide_family(res, tier, random.Random(seed * 1009 + 66))
+    return R.run_family(res, "C06", PROPS, gen(rnd, tier),
                         rule="histories of Write/Flush (views mutated from the previous one: changed lines, dropped tail/head, growth, exact/over-width lines, blank and empty views), alt switches, ClearScreen, repaint, prints, alt-screen resizes, mode ops; sizes 1..12 x 1..8 plus 80x24; initial rows above the view; deterministic shrink/grow pairs at size edges in both screens; distinct = distinct (ops, initial rows)")
 
 
 def replay(res, path):
-    return R.replay_family(res, "C06", "C06", path)
+    return R.replay_family(res, "C06", PROPS, path)
